@@ -26,4 +26,4 @@ def classes(m, v):
     return sorted(m.features & {'verb', 'verbatim', 'special', 'accent', 'detached', 'usermacro', 'own-line-brace', 'comment', 'removed-env', 'skip-region'})
 
 
-run_shard, replay = docprop.make(ID, judge, nontrivial, classes, quick=40000, thorough=1000000)
+run_shard, replay = docprop.make(ID, judge, nontrivial, classes, quick=40000, thorough=333333)
